@@ -71,14 +71,15 @@ type viol struct {
 }
 
 var (
-	flagTier   = flag.String("tier", "", "quick|thorough")
-	flagReplay = flag.String("replay", "", "replay file")
-	flagWorker = flag.String("worker", "", "internal: scenario to explore as a shard worker")
-	flagShard  = flag.String("shard", "", "internal: i/n")
-	flagBound  = flag.Int("bound", 0, "internal: deviation bound")
-	flagParam  = flag.String("param", "", "internal: scenario parameter")
-	flagBudget = flag.Duration("budget", 0, "internal: time budget")
-	flagDelay  = flag.Bool("delay", false, "internal: delay bounding")
+	flagTier         = flag.String("tier", "", "quick|thorough")
+	flagReplay       = flag.String("replay", "", "replay file")
+	flagWorker       = flag.String("worker", "", "internal: scenario to explore as a shard worker")
+	flagShard        = flag.String("shard", "", "internal: i/n")
+	flagBound        = flag.Int("bound", 0, "internal: deviation bound")
+	flagParam        = flag.String("param", "", "internal: scenario parameter")
+	flagBudget       = flag.Duration("budget", 0, "internal: time budget")
+	flagDelay        = flag.Bool("delay", false, "internal: delay bounding")
+	flagNoEarlyClock = flag.Bool("noearlyclock", false, "internal: timers fire only at quiescence")
 )
 
 // Start parses flags and the environment.
@@ -326,7 +327,7 @@ func WorkerMain() {
 	completed := -1
 	var viols []vsched.Violation
 	for b := 0; b <= *flagBound; b++ {
-		opts := vsched.Options{Bound: b, ShardIndex: i, ShardCount: n, ShardDepth: 1, Deadline: deadline, DelayBounded: *flagDelay}
+		opts := vsched.Options{Bound: b, ShardIndex: i, ShardCount: n, ShardDepth: 1, Deadline: deadline, DelayBounded: *flagDelay, NoEarlyClock: *flagNoEarlyClock || NoEarlyClock}
 		cur := vsched.Explore(fn(*flagParam), opts)
 		viols = append(viols, cur.Violations...)
 		st = cur
@@ -351,6 +352,9 @@ func WorkerMain() {
 	os.Stdout.Write(b)
 	os.Exit(0)
 }
+
+// NoEarlyClock, set by a check before exploring, makes timers fire only at quiescence.
+var NoEarlyClock bool
 
 // Workers is the number of shard processes.
 func Workers() int {
@@ -385,6 +389,9 @@ func ExploreBatch(name string, params []string, bound int, budget time.Duration,
 			}
 			if delay {
 				args = append(args, "--delay")
+			}
+			if NoEarlyClock {
+				args = append(args, "--noearlyclock")
 			}
 			cmd := exec.Command(os.Args[0], args...)
 			cmd.Stderr = os.Stderr
@@ -424,6 +431,9 @@ func ExploreSharded(name, param string, bound int, budget time.Duration, delay b
 			}
 			if delay {
 				args = append(args, "--delay")
+			}
+			if NoEarlyClock {
+				args = append(args, "--noearlyclock")
 			}
 			cmd := exec.Command(os.Args[0], args...)
 			cmd.Stderr = os.Stderr
